@@ -105,6 +105,22 @@ CHECKS = {
     design_ref="DESIGN.md §1 C01/C02/C05",
     note="Promptness (the OS actually interrupting the operation) and the runtime-level routes (future drop, timeout combinators in "
          "compio-runtime) are outside; same conditions as C01."),
+ "C09": dict(
+    engine="mirsym",
+    technique="symbolic execution of rustc's MIR of compio-runtime/src/time/runtime.rs (own interpreter, regenerated per run) with "
+              "z3 deciding path feasibility and proof obligations; one inductive step per operation from an arbitrary valid wheel",
+    category="model_checking",
+    text="Bounded symbolic model checking of the real MIR: from every wheel of <=3 (thorough: 4) timers with arbitrary 64-bit "
+         "deadlines/generations satisfying the representation invariant, and every clock reading, one step of insert / cancel / "
+         "wake / min_timeout / is_completed / update_waker / poll_timer satisfies: a timer stays pending iff deadline > now (never "
+         "early, always fires), its waker is woken exactly once, min_timeout never exceeds the distance to the nearest deadline, "
+         "cancel leaves nothing behind and touches nothing else, the invariant is preserved; the derived Ord of TimerKey equals the "
+         "lexicographic order the map summary uses. Histories of any length follow by induction on the invariant.",
+    design_ref="DESIGN.md §1 C09",
+    note="Summaries (BTreeMap, Instant, Waker contracts) are assumptions; the interpreter is validated each run against the natively "
+         "compiled runtime.rs (real clock) on seeded random histories; counterexamples are converted to histories and replayed "
+         "natively (boundary-only ones, deadline == now, cannot be and are reported on the solver's verdict). Outside: driver timeout "
+         "precision, Interval::tick's coroutine, Timeout/Sleep wrappers (planned), std's BTreeMap implementation."),
 }
 
 NOT_APPLICABLE = {
